@@ -29,20 +29,45 @@ var wktTypeTokens = map[string]string{
 
 // numberFormatRule: the single float->text site of an encoder function and the ordering/guard of the trim.
 // fn: the function containing the formatting call; digits: description of the precision operand (field name).
-func numberFormatRule(p *core.Program, r *core.Report, rule string, fn *ssa.Function, formatter string, digitsField string) {
-	key := short(fn)
-	var call *ssa.Call
-	n := 0
-	for _, c := range eng.Calls(fn) {
-		if o := eng.CalleeObj(c); o != nil && o.Pkg() != nil && o.Pkg().Path() == "strconv" && (o.Name() == "FormatFloat" || o.Name() == "AppendFloat") {
-			n++
-			call, _ = c.(*ssa.Call)
+func numberFormatRule(p *core.Program, r *core.Report, rule string, entry *ssa.Function, formatter string, digitsField string) {
+	key := short(entry)
+	// the formatting site is looked for in the entry function and in the helpers of its package it calls
+	// (an extracted formatOrdinate(x) is part of the same path)
+	type site struct {
+		fn   *ssa.Function
+		call *ssa.Call
+		via  *ssa.Call // the call in entry that leads to fn (nil when fn == entry)
+	}
+	var sites []site
+	seen := map[*ssa.Function]bool{}
+	var scan func(fn *ssa.Function, via *ssa.Call, depth int)
+	scan = func(fn *ssa.Function, via *ssa.Call, depth int) {
+		if fn == nil || seen[fn] || depth > 2 || len(fn.Blocks) == 0 {
+			return
+		}
+		seen[fn] = true
+		for _, c := range eng.Calls(fn) {
+			if o := eng.CalleeObj(c); o != nil && o.Pkg() != nil && o.Pkg().Path() == "strconv" && (o.Name() == "FormatFloat" || o.Name() == "AppendFloat") {
+				if cc, ok := c.(*ssa.Call); ok {
+					sites = append(sites, site{fn, cc, via})
+				}
+				continue
+			}
+			if cal := eng.StaticCallee(c); cal != nil && cal.Pkg == entry.Pkg && cal != entry {
+				v := via
+				if cc, ok := c.(*ssa.Call); ok && fn == entry {
+					v = cc
+				}
+				scan(cal, v, depth+1)
+			}
 		}
 	}
-	if n != 1 || call == nil {
-		r.Bad(rule, key+"/format-site", p.Pos(fn.Pos()), fmt.Sprintf("%d strconv float formatting sites in %s, want exactly one", n, short(fn)))
+	scan(entry, nil, 0)
+	if len(sites) != 1 {
+		r.Bad(rule, key+"/format-site", p.Pos(entry.Pos()), fmt.Sprintf("%d strconv float formatting sites on the path of %s, want exactly one", len(sites), short(entry)))
 		return
 	}
+	fn, call := sites[0].fn, sites[0].call
 	args := call.Call.Args
 	off := 0
 	if eng.CalleeObj(call).Name() == "AppendFloat" {
@@ -71,6 +96,29 @@ func numberFormatRule(p *core.Program, r *core.Report, rule string, fn *ssa.Func
 		case *ssa.MakeInterface, *ssa.ChangeType:
 		default:
 			bad = fmt.Sprintf("the ordinate is also used by %s at %s: a second formatting path (integer fast path, rounding, comparison) bypasses FormatFloat's exact round-trip text", rf, p.Pos(rf.Pos()))
+		}
+	}
+	if prm, isP := src.(*ssa.Parameter); isP && bad == "" && sites[0].via != nil {
+		// the ordinate reaches the helper as an argument: in the entry function that argument's only consumer is the call
+		idx := -1
+		for i, q := range fn.Params {
+			if q == prm {
+				idx = i
+			}
+		}
+		if idx >= 0 && idx < len(sites[0].via.Call.Args) {
+			a := eng.Strip(sites[0].via.Call.Args[idx])
+			for _, rf := range eng.Referrers(a) {
+				switch u := rf.(type) {
+				case *ssa.DebugRef, *ssa.MakeInterface, *ssa.ChangeType:
+				case *ssa.Call:
+					if u != sites[0].via {
+						bad = "the ordinate is also passed to " + u.Call.Value.String()
+					}
+				default:
+					bad = fmt.Sprintf("the ordinate is also used by %s at %s: a second formatting path bypasses FormatFloat's exact round-trip text", rf, p.Pos(rf.Pos()))
+				}
+			}
 		}
 	}
 	r.Check(bad == "", rule, key+"/single-consumer", p.Pos(call.Pos()), true, "the ordinate's only consumer is the formatting call", bad)
@@ -129,7 +177,7 @@ func fmtVerb(v int64, ok bool) string {
 
 func c05(p *core.Program, r *core.Report) {
 	g := wktGrammar(p, r, "keyword-chain")
-	efd, epkg := p.DeclOf(wktRel, "(*Encoder).write")
+	efd, _ := p.DeclOf(wktRel, "(*Encoder).write")
 	const r1 = "keyword-chain"
 	r.Rule(r1, "for each of the 7 geometry types x {XY, Z, M, ZM}: the encoder's keyword text (type string + layout suffix constants), folded the way the lexer folds it (letters upper-cased, an optional Z then an optional M glued on), is a key of keywordsMap; its token is consumed by exactly one *_type production of wkt.y whose action passes the matching geom.Layout constant (base type: validateBaseGeometryTypeAllowed); the lexer glues Z before M", 30)
 	if efd == nil || g == nil {
@@ -137,33 +185,89 @@ func c05(p *core.Program, r *core.Report) {
 	} else {
 		ln := layoutNames(p)
 		// encoder tables
+		// encoder table by evaluation: (*Encoder).write with g bound to each dynamic type and g.Layout() to each
+		// layout constant; the keyword is the constant string handed to the first WriteString that is reached
+		// (helpers extracted from write are evaluated as part of it)
 		typeStr := map[string]string{}
 		suffix := map[string]string{}
-		for _, sw := range eng.Switches(epkg, efd.Body) {
-			if sw.IsType {
-				for _, c := range sw.Clauses {
-					if len(c.Assigns) == 1 && c.Assigns[0].Const != nil && c.Assigns[0].Const.Kind() == constant.String && c.Assigns[0].LHS == "typeString" {
-						for _, k := range c.Keys {
-							typeStr[eng.TypeShort(k.Type)] = constant.StringVal(c.Assigns[0].Const)
-						}
-					}
+		lvalOf := map[string]int64{}
+		for v, n := range ln {
+			lvalOf[n] = v
+		}
+		if wfn := mustFn(p, r, r1, wktRel, "(*Encoder).write"); wfn != nil {
+			gIdx := -1
+			for i, prm := range wfn.Params {
+				if n, ok := prm.Type().(*types.Named); ok && n.Obj().Name() == "T" {
+					gIdx = i
 				}
-				continue
 			}
-			if sw.Tag != nil && sw.TagStr == "layout" {
-				for _, c := range sw.Clauses {
-					for _, k := range c.Keys {
-						if k.Default || k.Const == nil {
-							continue
-						}
-						kv, _ := eng.ConstInt64(k.Const)
-						s := ""
-						for _, a := range c.Assigns {
-							if a.LHS == "typeString" && a.Op == token.ADD_ASSIGN && a.Const != nil {
-								s += constant.StringVal(a.Const)
+			keyword := func(dyn types.Type, layout int64) (string, bool) {
+				ev := &eng.ConstEval{Inline: pureTableHelper}
+				ev.Override = func(fn *ssa.Function, v ssa.Value, args []eng.CVal) (eng.CVal, bool) {
+					if c, ok := v.(*ssa.Call); ok {
+						if o := eng.CalleeObj(c); o != nil && len(args) > 0 && args[0].K == eng.CType {
+							switch o.Name() {
+							case "Layout":
+								return eng.IntV(layout), true
+							default:
+								return eng.Top, true
 							}
 						}
-						suffix[ln[kv]] = s
+					}
+					return eng.CVal{}, false
+				}
+				args := make([]eng.CVal, len(wfn.Params))
+				for i := range args {
+					args[i] = eng.Top
+				}
+				args[gIdx] = eng.DynV(dyn)
+				top := ev.Run(wfn, args)
+				kwText, found := "", false
+				eng.WalkReached(top, func(act *eng.CEResult, in ssa.Instruction) {
+					if found {
+						return
+					}
+					c, ok := in.(*ssa.Call)
+					if !ok {
+						return
+					}
+					f := c.Call.StaticCallee()
+					if f == nil || f.Name() != "WriteString" || len(c.Call.Args) != 2 {
+						return
+					}
+					v := act.Of(c.Call.Args[1])
+					found = true
+					if v.K == eng.CConst && v.C.Kind() == constant.String {
+						kwText = constant.StringVal(v.C)
+					} else {
+						kwText = "?" + v.String()
+					}
+				})
+				return kwText, found
+			}
+			if gIdx >= 0 {
+				for gt := range wktTypeTokens {
+					dyn := geomPtrType(p, strings.TrimPrefix(gt, "*geom."))
+					if dyn == nil {
+						continue
+					}
+					for _, lay := range []string{"XY", "XYZ", "XYM", "XYZM"} {
+						full, ok := keyword(dyn, lvalOf[lay])
+						if !ok {
+							continue
+						}
+						t, suf := full, ""
+						if k := strings.IndexByte(full, ' '); k >= 0 {
+							t, suf = full[:k+1], full[k+1:]
+						}
+						if lay == "XY" {
+							typeStr[gt] = t
+						}
+						if typeStr[gt] != "" && t != typeStr[gt] {
+							suffix[gt+"/"+lay] = "?" + full
+						} else {
+							suffix[gt+"/"+lay] = suf
+						}
 					}
 				}
 			}
@@ -204,12 +308,12 @@ func c05(p *core.Program, r *core.Report) {
 					r.Bad(r1, key, p.Pos(efd.Pos()), "encoder has no keyword for "+gt)
 					continue
 				}
-				folded := fold(ts, suffix[lay])
+				folded := fold(ts, suffix[gt+"/"+lay])
 				wantTok := wktTypeTokens[gt] + wantSuffix[lay]
 				tok, inMap := kw[folded]
 				switch {
 				case folded != wantTok:
-					r.Bad(r1, key, p.Pos(efd.Pos()), fmt.Sprintf("encoder writes %q + %q which the lexer folds to %q; the standard keyword for %s %s is %q", ts, suffix[lay], folded, gt, lay, wantTok))
+					r.Bad(r1, key, p.Pos(efd.Pos()), fmt.Sprintf("encoder writes %q + %q which the lexer folds to %q; the standard keyword for %s %s is %q", ts, suffix[gt+"/"+lay], folded, gt, lay, wantTok))
 				case !inMap:
 					r.Bad(r1, key, p.Pos(efd.Pos()), "the folded keyword "+folded+" is not in keywordsMap: the library cannot read its own output")
 				case tok != folded:
@@ -233,7 +337,7 @@ func c05(p *core.Program, r *core.Report) {
 							}
 						}
 					}
-					r.Check(okProd, r1, key, p.Pos(efd.Pos()), true, fmt.Sprintf("%q -> %s -> %s with layout %s", ts+suffix[lay], folded, users, lay), why)
+					r.Check(okProd, r1, key, p.Pos(efd.Pos()), true, fmt.Sprintf("%q -> %s -> %s with layout %s", ts+suffix[gt+"/"+lay], folded, users, lay), why)
 				}
 			}
 		}
@@ -295,26 +399,13 @@ func c05(p *core.Program, r *core.Report) {
 		}
 		r.Check(def == -1, r2, short(fn)+"/default-digits", p.Pos(fn.Pos()), true, "default maxDecimalDigits = -1 (shortest exact text)", fmt.Sprintf("the default number of decimal digits is %d: the default output rounds ordinates", def))
 	}
-	if fd, pkg := p.DeclOf(wktRel, "isNumRune"); fd != nil {
-		accepted := map[rune]bool{}
-		digits := false
-		ast.Inspect(fd.Body, func(n ast.Node) bool {
-			switch x := n.(type) {
-			case *ast.CaseClause:
-				for _, e := range x.List {
-					if v := eng.ConstOf(pkg.TypesInfo, e); v != nil && v.Kind() == constant.Int {
-						iv, _ := constant.Int64Val(v)
-						accepted[rune(iv)] = true
-					}
-				}
-			case *ast.CallExpr:
-				if sel, ok := x.Fun.(*ast.SelectorExpr); ok && sel.Sel.Name == "IsDigit" {
-					digits = true
-				}
-			}
-			return true
-		})
-		r.Check(digits && accepted['-'] && accepted['.'], r2, wktRel+".isNumRune", p.Pos(fd.Pos()), true, "digits, '-' and '.' are number runes (everything 'f' emits for finite values)", "the lexer does not accept every rune FormatFloat(x, 'f', ...) can emit")
+	if fn := mustFn(p, r, r2, wktRel, "isNumRune"); fn != nil {
+		acc, ok := runePredicate(fn, "0123456789-. ,()")
+		digits := ok
+		for ch := '0'; ch <= '9'; ch++ {
+			digits = digits && acc[ch]
+		}
+		r.Check(digits && acc['-'] && acc['.'] && !acc[' '] && !acc[','] && !acc['('] && !acc[')'], r2, wktRel+".isNumRune", p.Pos(fn.Pos()), true, "digits, '-' and '.' are number runes (everything 'f' emits for finite values); separators are not", "the lexer does not accept every rune FormatFloat(x, 'f', ...) can emit, or takes a separator for part of a number")
 	}
 	if fn := mustFn(p, r, r2, wktRel, "(*wktLex).num"); fn != nil {
 		ok := false
@@ -406,13 +497,10 @@ func c18(p *core.Program, r *core.Report) {
 	const r3 = "geojson-handler-coverage"
 	r.Rule(r3, "in geojson.encode each of the six coordinate-bearing cases passes its Coords() value through every option's onFloat64Handler before json.Marshal; the bbox handler does the same with the bbox values and receives the full option list (so the two options compose in either order)", 7)
 	if fn := mustFn(p, r, r3, rel, "encode"); fn != nil {
-		// every json.Marshal call in encode whose argument is a coordinate value must take a phi that includes a handler call result
+		// (a) every json.Marshal of a coordinate value on encode's path has gone through the handlers
 		n := 0
-		for _, c := range eng.Calls(fn) {
-			if !eng.IsCallTo(c, "encoding/json", "Marshal") {
-				continue
-			}
-			arg := c.Common().Args[0]
+		for _, c := range marshalSites(fn) {
+			arg := c.Call.Args[0]
 			if mi, ok := arg.(*ssa.MakeInterface); ok {
 				// []*Geometry for collections: members are encoded recursively with opts
 				if strings.Contains(mi.X.Type().String(), "Geometry") {
@@ -420,18 +508,36 @@ func c18(p *core.Program, r *core.Report) {
 				}
 			}
 			n++
-			key := fmt.Sprintf("%s/json.Marshal#%d", short(fn), n)
+			key := fmt.Sprintf("%s/json.Marshal#%d", short(c.Parent()), n)
 			r.Check(flowsThroughHandler(arg), r3, key, p.Pos(c.Pos()), true, "marshalled value = result of the options' float handlers applied in a loop", "coordinates are marshalled without passing through the options' float handlers: the decimal-digit limit is ignored for this geometry type")
 		}
-		if n != 6 {
-			r.Bad(r3, short(fn)+"/cases", p.Pos(fn.Pos()), fmt.Sprintf("%d coordinate-bearing json.Marshal calls in encode, want 6", n))
+		// (b) each of the six Coords() values of encode reaches such a marshal
+		nc := 0
+		for _, c := range eng.Calls(fn) {
+			cc, ok := c.(*ssa.Call)
+			if !ok {
+				continue
+			}
+			o := eng.CalleeObj(cc)
+			if o == nil || o.Name() != "Coords" {
+				continue
+			}
+			nc++
+			recv := "?"
+			if sig, ok := o.Type().(*types.Signature); ok && sig.Recv() != nil {
+				recv = eng.TypeShort(sig.Recv().Type())
+			}
+			r.Check(reachesHandledMarshal(cc, map[ssa.Value]bool{}, 0), r3, fmt.Sprintf("%s/Coords#%d/%s", short(fn), nc, recv), p.Pos(cc.Pos()), true, "coordinates reach json.Marshal through the handlers", "the coordinates of "+recv+" do not reach a json.Marshal that has gone through the options' float handlers")
+		}
+		if nc != 6 {
+			r.Bad(r3, short(fn)+"/cases", p.Pos(fn.Pos()), fmt.Sprintf("%d Coords() values in encode, want 6 (Point, LineString, Polygon and the three Multi types)", nc))
 		}
 	}
 	if outer := mustFn(p, r, r3, rel, "EncodeGeometryWithBBox"); outer != nil && len(outer.AnonFuncs) == 1 {
 		h := outer.AnonFuncs[0]
 		ok := false
-		for _, c := range eng.Calls(h) {
-			if eng.IsCallTo(c, "encoding/json", "Marshal") && flowsThroughHandler(c.Common().Args[0]) {
+		for _, c := range marshalSites(h) {
+			if flowsThroughHandler(c.Call.Args[0]) {
 				ok = true
 			}
 		}
@@ -452,33 +558,142 @@ func c18(p *core.Program, r *core.Report) {
 }
 
 // flowsThroughHandler: v (an interface value) is a phi one of whose edges is the result of a dynamic handler call fed by the phi itself.
-func flowsThroughHandler(v ssa.Value) bool {
-	phi, ok := v.(*ssa.Phi)
-	if !ok {
+func flowsThroughHandler(v ssa.Value) bool { return throughHandlers(v, 0) }
+
+// throughHandlers: v is the running value of a loop that applies a dynamically called one-argument handler to it
+// (for _, opt := range opts { if opt.h != nil { v = opt.h(v) } }), or the result of a helper of the same package
+// all of whose returns are such values.
+func throughHandlers(v ssa.Value, depth int) bool {
+	if depth > 3 {
 		return false
 	}
-	seen := map[*ssa.Phi]bool{}
-	var has func(ph *ssa.Phi) bool
-	has = func(ph *ssa.Phi) bool {
-		if seen[ph] {
+	switch x := v.(type) {
+	case *ssa.Phi:
+		seen := map[*ssa.Phi]bool{}
+		var has func(ph *ssa.Phi) bool
+		has = func(ph *ssa.Phi) bool {
+			if seen[ph] {
+				return false
+			}
+			seen[ph] = true
+			for _, e := range ph.Edges {
+				switch y := e.(type) {
+				case *ssa.Call:
+					if y.Call.StaticCallee() == nil && !y.Call.IsInvoke() && len(y.Call.Args) == 1 {
+						return true
+					}
+				case *ssa.Phi:
+					if has(y) {
+						return true
+					}
+				}
+			}
 			return false
 		}
-		seen[ph] = true
-		for _, e := range ph.Edges {
-			switch x := e.(type) {
-			case *ssa.Call:
-				if x.Call.StaticCallee() == nil && !x.Call.IsInvoke() && len(x.Call.Args) == 1 {
-					return true
-				}
-			case *ssa.Phi:
-				if has(x) {
-					return true
+		return has(x)
+	case *ssa.Call:
+		cal := x.Call.StaticCallee()
+		if cal == nil || len(cal.Blocks) == 0 || cal.Pkg != x.Parent().Pkg {
+			return false
+		}
+		n := 0
+		for _, b := range cal.Blocks {
+			for _, in := range b.Instrs {
+				if ret, ok := in.(*ssa.Return); ok && len(ret.Results) >= 1 {
+					n++
+					if !throughHandlers(ret.Results[0], depth+1) {
+						return false
+					}
 				}
 			}
 		}
+		return n > 0
+	case *ssa.Extract:
+		return throughHandlers(x.Tuple, depth)
+	}
+	return false
+}
+
+// marshalSites lists the json.Marshal calls of fn and of the helpers of its package it calls (depth 2).
+func marshalSites(fn *ssa.Function) []*ssa.Call {
+	var out []*ssa.Call
+	seen := map[*ssa.Function]bool{}
+	var scan func(f *ssa.Function, depth int)
+	scan = func(f *ssa.Function, depth int) {
+		if f == nil || seen[f] || depth > 2 || len(f.Blocks) == 0 {
+			return
+		}
+		seen[f] = true
+		for _, c := range eng.Calls(f) {
+			if eng.IsCallTo(c, "encoding/json", "Marshal") {
+				if cc, ok := c.(*ssa.Call); ok {
+					out = append(out, cc)
+				}
+				continue
+			}
+			if cal := eng.StaticCallee(c); cal != nil && cal.Pkg == fn.Pkg && cal != fn && cal.Name() != "Encode" {
+				scan(cal, depth+1)
+			}
+		}
+	}
+	scan(fn, 0)
+	return out
+}
+
+// reachesHandledMarshal: the value flows (through interface conversions, phis, handler applications and helpers of
+// the package) into a json.Marshal argument that has gone through the handlers.
+func reachesHandledMarshal(v ssa.Value, seen map[ssa.Value]bool, depth int) bool {
+	if seen[v] || depth > 6 {
 		return false
 	}
-	return has(phi)
+	seen[v] = true
+	for _, rf := range eng.Referrers(v) {
+		switch x := rf.(type) {
+		case *ssa.MakeInterface:
+			if reachesHandledMarshal(x, seen, depth) {
+				return true
+			}
+		case *ssa.Phi:
+			if reachesHandledMarshal(x, seen, depth) {
+				return true
+			}
+		case *ssa.Call:
+			if eng.IsCallTo(x, "encoding/json", "Marshal") {
+				if flowsThroughHandler(x.Call.Args[0]) {
+					return true
+				}
+				continue
+			}
+			cal := x.Call.StaticCallee()
+			if cal == nil {
+				// a dynamic one-argument handler application: the result carries the value on
+				if !x.Call.IsInvoke() && len(x.Call.Args) == 1 && reachesHandledMarshal(x, seen, depth) {
+					return true
+				}
+				continue
+			}
+			if cal.Pkg == x.Parent().Pkg && len(cal.Blocks) > 0 {
+				for i, a := range x.Call.Args {
+					if a == v && i < len(cal.Params) {
+						if reachesHandledMarshal(cal.Params[i], seen, depth+1) {
+							return true
+						}
+					}
+				}
+				// or the helper hands the (handled) value back
+				if reachesHandledMarshal(x, seen, depth+1) {
+					return true
+				}
+			}
+		case *ssa.Extract:
+			if reachesHandledMarshal(x, seen, depth) {
+				return true
+			}
+		case *ssa.Return:
+			// handled by the caller side (the call's result)
+		}
+	}
+	return false
 }
 
 var _ = packages.NeedName
